@@ -28,7 +28,9 @@ VERIF = Path(__file__).resolve().parent.parent
 REPO = Path(os.environ.get("VERIF_REPO", "/repo"))
 SPEC = VERIF / "spec"
 OUT = VERIF / "out"
-EVIDENCE = VERIF / "evidence"
+# evidence of runs against deliberately modified code (seeded changes) is redirected, so that the
+# committed evidence always describes /repo itself
+EVIDENCE = Path(os.environ["VERIF_EVIDENCE_DIR"]) if os.environ.get("VERIF_EVIDENCE_DIR") else VERIF / "evidence"
 KNOWN_FILE = VERIF / "known_findings.json"
 
 
